@@ -7,6 +7,8 @@ from ..lib import FAILED
 from ..runner import Sub
 
 ID = 'C02'
+TECHNIQUE = 'PBT + metamorphic self-similarity relation MK(p) = {k} U MK(left) U MK(right) + gate predicate + loop guard'
+LEVEL_TEXT = "Exploration: Root-level decomposition and gate on generated curves (n <= 1200 in quick); which knee is right is C03/C09's subject. Finds counter-examples (shrunk to a replay file); never proves absence."
 RULE = ('Cases = (valid curve n in 2..60|300, detector in {curvature, dfdt, menger, lmethod, kneedle}, t1 in {0} '
         'or a SMAPE value that occurs on a sub-range of this curve (boundary) or a standard value, t2 in '
         '[detector minimum, +6]).  Oracle: terminates within 4n+16 loop tests; strictly increasing integer '
